@@ -67,6 +67,9 @@ def run_case(case):
         flows.append(scen.quic_flow({"suite": 0x1301, "script": [("c", [(0, 43)]), ("s", [(0, 44)])]}, seed, 31, v6=(ipver == "v6"), server_port=443))
         for f in flows[-2:]:
             f.ends.client.port = 44330
+        # ... and a TLS connection whose client and server use the SAME port number (8443 <-> 8443)
+        flows.append(scen.tls_flow({"version": v, "suite": code, "history": [("c", 45), ("s", 46)]}, seed, 32, v6=(ipver == "v6"), server_port=8443))
+        flows[-1].ends.client.port = 8443
         if shared:
             # the TLS connections to 443 and to 8443 come from ONE client endpoint (same address and source port) and go to one
             # server address: they differ in the server port only; the same for the QUIC connections to 443 and 9443
@@ -111,7 +114,7 @@ def run_case(case):
         for f in flows:
             sp = f.ends.server.port
             want_port = sp if mapping is None else mapping.get(sp, 8080)
-            sig = dict(cfg, flow=f.kind, server_port=sp, client_port_is_a_server_port=f.ends.client.port in (443, 44330))
+            sig = dict(cfg, flow=f.kind, server_port=sp, client_port_is_a_server_port=f.ends.client.port in (443, 44330, 8443))
             if f.kind == "tls":
                 convs = [c for c in an["tcp"].values() if c["client"] == f.ends.client.key() and c["server"][0] == f.ends.server.ip
                          and (c["c2s"], c["s2c"]) == (f.conn.plain["c"], f.conn.plain["s"])]
